@@ -164,7 +164,24 @@ def what_of(o):
     return "%s: %s %s [%s]; confirmed alone: %s" % (inp, o["class"], o.get("detail", "")[:160], o.get("frames", ""), o.get("confirmed"))
 
 
+def row_safe_py(r):
+    lc = r["lencheck"]
+    for i, v in enumerate(r.get("vars") or []):
+        if i >= r["min"] and v["iface"] and v["deref"] and not (v["nilcheck"] or v["init"] or lc):
+            return False
+    if r["unpack"] == "positional":
+        return r["argindex"] <= r["min"] or lc
+    return r["argindex"] == 0 or lc
+
+
 def replay(ctx, hx):
+    doc = json.load(open(ctx.replay_path))
+    if doc.get("replay", {}).get("mode") == "arity":
+        want = doc["replay"]["row"]["func"]
+        rows = [d["row"] for d in ctx.jsonl([hx, "arity", "-repo", ctx.repo]) if d["row"]["func"] == want]
+        for r in rows:
+            print(json.dumps({"row": r, "safe": row_safe_py(r)}))
+        return 1 if any(not row_safe_py(r) for r in rows) else 0
     p = subprocess.run([hx, "replay", ctx.replay_path], env=env(), capture_output=True, text=True, timeout=600)
     print(p.stdout.strip() or p.stderr[-2000:])
     for line in p.stdout.splitlines():
@@ -262,7 +279,9 @@ Print stale.
                 cases.append(t)
                 refs.append({"graph": c["graph"], "op": c["op"], "class": "crash", "source": c.get("source")})
     ctx.log("evaluating %d distinct (graph, operation, observed class) cases in Coq" % len(cases))
-    bad_model, bad_spec = coq_mismatches(ctx, "c02_cases", HEADER, cases, ["model_ok", "spec_ok"], shard=1500)
+    bad_model, bad_spec, bad_det = coq_mismatches(ctx, "c02_cases", HEADER, cases, ["model_ok", "spec_ok", "detector_ok"], shard=1500)
+    if bad_det and not bad_model:
+        ctx.broken("correspondence:C02.detector", "the struct-cycle detector (wv_check) and the implementation disagree on %d printing case(s), e.g. %s" % (len(bad_det), json.dumps(refs[bad_det[0]])[:600]))
     # spec failures are the crashes themselves (already findings through their keys)
     only_model = [i for i in bad_model]
     known_crash_keys = set(f.key for f in ctx.findings)
